@@ -142,14 +142,15 @@ theorem R_foldl_deleteCascade (G : List Int) : ∀ (L : List Int) (u : Table α)
 
 /-- database::remove_track's loop over the lists `L` (pairwise different): in each, the entry of track `tv`
 (the last such row, as playlist_entity_table::get reads it) is deleted. -/
-theorem R_foldl_removeTrack (fires : Row Int → Bool) (hv : ∀ r r' : Row Int, r.val = r'.val → fires r = fires r')
-    (tv : Int) : ∀ (L : List Int), L.Nodup → ∀ (pe : Table Int) (B : Int → List Int), R B pe → (∀ r ∈ pe, fires r = true) →
-    let step := fun (pe : Table Int) (l : Int) =>
-      match (pe.filter (fun r => r.key == l && r.val == tv)).getLast? with
+theorem R_foldl_removeTrack (fires : Row V2.Ent → Bool)
+    (hv : ∀ r r' : Row V2.Ent, r.val = r'.val → fires r = fires r')
+    (tv : Int) : ∀ (L : List Int), L.Nodup → ∀ (pe : Table V2.Ent) (B : Int → List Int), R B pe → (∀ r ∈ pe, fires r = true) →
+    let step := fun (pe : Table V2.Ent) (l : Int) =>
+      match (pe.filter (fun r => r.key == l && r.val.track == tv)).getLast? with
       | some e => deleteKeyed fires pe l e.id
       | none => pe
     R (fun l => if L.contains l then
-          (match (pe.filter (fun r => r.key == l && r.val == tv)).getLast? with
+          (match (pe.filter (fun r => r.key == l && r.val.track == tv)).getLast? with
            | some e => (B l).erase e.id
            | none => B l)
         else B l) (L.foldl step pe) ∧
@@ -162,10 +163,10 @@ theorem R_foldl_removeTrack (fires : Row Int → Bool) (hv : ∀ r r' : Row Int,
     have hnd' := List.nodup_cons.mp hnd
     simp only [List.foldl_cons]
     -- the first list
-    have hlook : ∀ (p : Table Int) (l : Int), p.filter (fun r => r.key == l && r.val == tv) = (rowsOf p l).filter (fun r => r.val == tv) := by
+    have hlook : ∀ (p : Table V2.Ent) (l : Int), p.filter (fun r => r.key == l && r.val.track == tv) = (rowsOf p l).filter (fun r => r.val.track == tv) := by
       intro p l; unfold rowsOf; rw [List.filter_filter]
       apply List.filter_congr; intro r _; exact Bool.and_comm _ _
-    cases hl : (pe.filter (fun r => r.key == a && r.val == tv)).getLast? with
+    cases hl : (pe.filter (fun r => r.key == a && r.val.track == tv)).getLast? with
     | none =>
       simp only
       obtain ⟨h1, h2, h3⟩ := ih hnd'.2 pe B h hf
@@ -219,7 +220,7 @@ theorem R_empty {α : Type} : R (fun _ => []) ([] : Table α) := by
 theorem chInv_empty : ChInv Ord.empty Db.empty := by
   constructor <;> first | exact R_empty | simp [Db.empty, ids]
 
-theorem fires_val (r r' : Row Int) (h : r.val = r'.val) : fires r = fires r' := by
+theorem fires_val (r r' : Row Ent) (h : r.val = r'.val) : fires r = fires r' := by
   simp [fires, h]
 
 theorem ordStep_throw {S : Ord} {d : Db} {op : Op} {e : Exn} (h : step d op = (d, .throw e)) :
@@ -237,7 +238,7 @@ theorem ChInv.withPl {S : Ord} {d : Db} (hI : ChInv S d) {K : Int → List Int} 
   ⟨hk, hI.re, hI.fires, hs, hs0, hI.peSeq, hI.peSeq0, hI.trPos, hI.trSeq0⟩
 
 /-- A change of the PlaylistEntity table alone. -/
-theorem ChInv.withPe {S : Ord} {d : Db} (hI : ChInv S d) {E : Int → List Int} {pe : Table Int} {seq : Int}
+theorem ChInv.withPe {S : Ord} {d : Db} (hI : ChInv S d) {E : Int → List Int} {pe : Table Ent} {seq : Int}
     (he : R E pe) (hf : ∀ r ∈ pe, V2.fires r = true) (hs : ∀ i ∈ ids pe, i ≤ seq) (hs0 : 0 ≤ seq) :
     ChInv { S with ents := E } { d with pe := pe, peSeq := seq } :=
   ⟨hI.rk, he, hf, hI.plSeq, hI.plSeq0, hs, hs0, hI.trPos, hI.trSeq0⟩
@@ -560,14 +561,14 @@ theorem chInv_removeCrate {S : Ord} {d : Db} (hI : ChInv S d) (c : Int) :
 
 /-! ### entries -/
 
-theorem chInv_addBack {S : Ord} {d : Db} (hI : ChInv S d) {op : Op} {l t : Int} {f : Bool} (ht : 0 < t)
-    (hstep : step d op = peAddBack d l t f)
+theorem chInv_addBack {S : Ord} {d : Db} (hI : ChInv S d) {op : Op} {l t u : Int} {f : Bool} (ht : 0 < t)
+    (hstep : step d op = peAddBack d l t u f)
     (hord : ∀ out, ordOk S d op out = (match out with
-      | some e => if (peGet d l t).isNone then { S with ents := setKey S.ents l (S.ents l ++ [e]) } else S
+      | some e => if (peFind d l t u).isNone then { S with ents := setKey S.ents l (S.ents l ++ [e]) } else S
       | none => S)) :
     ChInv (ordStep S d op) (step d op).1 := by
   unfold peAddBack at hstep
-  cases hg : peGet d l t with
+  cases hg : peFind d l t u with
   | some e =>
     rw [hg] at hstep
     cases f with
@@ -585,7 +586,7 @@ theorem chInv_addBack {S : Ord} {d : Db} (hI : ChInv S d) {op : Op} {l t : Int} 
     have hfresh : d.peSeq + 1 ∉ ids d.pe := by
       intro h; have := hI.peSeq _ h; omega
     have hpos : 0 < d.peSeq + 1 := by have := hI.peSeq0; omega
-    refine hI.withPe (R_appendBack hI.re t hpos hfresh) ?_ ?_ (by omega)
+    refine hI.withPe (R_appendBack hI.re ⟨t, u⟩ hpos hfresh) ?_ ?_ (by omega)
     · intro r hr
       rcases mem_appendBack hr with ⟨r0, hr0, _, e⟩ | ⟨_, e⟩
       · rw [fires_val r r0 e]; exact hI.fires r0 hr0
@@ -618,7 +619,7 @@ theorem chInv_removeTrack {S : Ord} {d : Db} (hI : ChInv S d) (t : Int) :
   by_cases hc : t ∈ d.tracks
   · have hstep : step d (.removeTrack t) = ({ d with
         pe := (ids d.pl).foldl (fun pe l =>
-          match (pe.filter (fun r => r.key == l && r.val == t)).getLast? with
+          match (pe.filter (fun r => r.key == l && r.val.track == t)).getLast? with
           | some e => deleteKeyed fires pe l e.id
           | none => pe) d.pe,
         tracks := d.tracks.filter (· != t) }, .ok none) := by
@@ -656,7 +657,7 @@ theorem chInv_step {S : Ord} {d : Db} (hI : ChInv S d) (op : Op) (hok : okOp op 
   | addTrack c t =>
     by_cases he : plExists d c = true
     · by_cases ht : t ∈ d.tracks
-      · exact chInv_addBack hI (hI.trPos t ht) (l := c) (f := false) (by simp [step, he, ht]) (by intro out; cases out <;> rfl)
+      · exact chInv_addBack hI (hI.trPos t ht) (l := c) (u := 0) (f := false) (by simp [step, he, ht]) (by intro out; cases out <;> rfl)
       · exact chInv_throw (e := exn "track_deleted") hI (by simp [step, he, ht])
     · have he' : plExists d c = false := by simpa using he
       exact chInv_throw (e := exn "crate_deleted") hI (by simp [step, he'])
@@ -673,9 +674,9 @@ theorem chInv_step {S : Ord} {d : Db} (hI : ChInv S d) (op : Op) (hok : okOp op 
     refine chInv_clearKey hI (l := c) rfl ?_
     have hstep : step d (.clearTracks c) = ({ d with pe := clearKey fires d.pe c }, .ok none) := rfl
     rw [ordStep_ok hstep]; rfl
-  | peAddBack l t f =>
+  | peAddBack l t u f =>
     have ht : 0 < t := by simpa [okOp] using hok
-    exact chInv_addBack hI ht (f := f) rfl (by intro out; cases out <;> rfl)
+    exact chInv_addBack hI ht (u := u) (f := f) rfl (by intro out; cases out <;> rfl)
   | peRemove l e =>
     by_cases hc : ((rowsOf d.pe l).find? (·.id == e)).isNone = true
     · exact chInv_throw (e := .invalid_argument) hI (by simp only [step, hc, if_true])
